@@ -3,7 +3,8 @@
      qbase/src/packet/io.rs       PacketWriter::{new_long,new_short}, PacketLayout arithmetic,
                                   <PacketWriter as AssemblePacket>::encrypt_and_protect_packet
      qbase/src/packet/encrypt.rs  encode_{long,short}_first_byte, encrypt_packet, protect_header
-     qbase/src/packet/decrypt.rs  remove_protection_of_{long,short}_packet, decrypt_packet
+     qbase/src/packet/decrypt.rs  remove_protection_of_{long,short}_packet, decrypt_packet,
+                                  check_reserved_bits_of_{long,short}_packet (after the fix of F45)
      qbase/src/packet/type.rs     SpecificBits::pn_len (reserved-bit check), LONG/SHORT_RESERVED_MASK
      qbase/src/packet/number.rs   put_packet_number / take_pn_len / decode   (Model/Pn.v)
      qbase/src/packet/io.rs       be_packet                                   (Model/Packets.v)
@@ -57,7 +58,7 @@ Inductive build_res :=
 Inductive rx :=
 | RxAccept (h : header) (total pn : Z) (phase : bool) (body : list Z)
 | RxParse (e : perr)      (* be_packet error: the datagram is dropped *)
-| RxConnErr               (* Some(Err(PROTOCOL_VIOLATION)): reserved bits set after unmasking *)
+| RxConnErr               (* Some(Err(PROTOCOL_VIOLATION)): reserved bits set in an AUTHENTICATED packet *)
 | RxInvalidPn             (* pn_decoder refused: dropped *)
 | RxDecrypt               (* decrypt_packet failed: dropped *)
 | RxNotData (kind : Z)    (* version negotiation / retry: not a protected packet *)
@@ -65,7 +66,6 @@ Inductive rx :=
 
 Inductive unprot :=
 | UOk (pkt : list Z) (pnlen v : Z)       (* packet with first byte and pn unmasked; undecoded pn *)
-| UReserved
 | UPanic.
 
 Section Protect.
@@ -87,9 +87,12 @@ Section Protect.
               :: sub pkt 1 (off - 1) ++ xor_prefix (sub payload 0 n) (tl m) ++ skipn (Z.to_nat n) payload).
 
   (* PacketWriter::new_long / new_short, the body written through BufMut, encrypt_and_protect_packet.
-     [pn] is the actual packet number (the AEAD nonce), [e] its encoding chosen by the caller. *)
-  Definition build (h : header) (phase : bool) (pn : Z) (e : pnum) (body : list Z) (bufsz : Z)
-                   (k : key) (hk : hkey) : build_res :=
+     [pn] is the actual packet number (the AEAD nonce), [e] its encoding chosen by the caller.
+     [rsv] = 0 is the code (the reserved bits are never set by the writer); a non-zero [rsv] (within the
+     reserved mask) describes a peer that holds the keys but sets reserved bits — used only to state that
+     such an authentic packet is answered with PROTOCOL_VIOLATION. *)
+  Definition build_r (rsv : Z) (h : header) (phase : bool) (pn : Z) (e : pnum) (body : list Z) (bufsz : Z)
+                     (k : key) (hk : hkey) : build_res :=
     if negb (is_data h) then BPanic 9
     else
       let short := is_short h in
@@ -107,16 +110,18 @@ Section Protect.
           else if negb short && (2 ^ 14 <=? payload_len + TAG_LEN) then BPanic 2
           else
             let hb := put_header h in
-            let b0 := Z.lor (hd 0 hb) ((w - 1) + (if short && phase then 4 else 0)) in
+            let b0 := Z.lor (hd 0 hb) ((w - 1) + (if short && phase then 4 else 0) + rsv) in
             let hdr := b0 :: tl hb ++ (if short then [] else put_be 2 (2 ^ 14 + (payload_len + TAG_LEN))) in
             let aad := hdr ++ pn_bytes e in
             match hp_protect hk (aad ++ enc k pn aad body) (hdr_len + len_enc) w with
             | Some p => BOk p
             | None => BPanic 3
             end.
+  Definition build := build_r 0.
 
-  (* remove_protection_of_{long,short}_packet on pkt (the packet's own bytes), pn at [off] *)
-  Definition unprotect (hk : hkey) (short : bool) (pkt : list Z) (off : Z) : unprot :=
+  (* remove_protection_of_{long,short}_packet on pkt (the packet's own bytes), pn at [off].  The pn length is
+     read from the unmasked first byte; the reserved bits are NOT judged here (the packet is not authenticated). *)
+  Definition unprotect (hk : hkey) (pkt : list Z) (off : Z) : unprot :=
     let payload := skipn (Z.to_nat off) pkt in
     if zlen payload <? 4 + SAMPLE_LEN then UPanic
     else
@@ -125,9 +130,8 @@ Section Protect.
       let b0' := Z.lxor b0 (Z.land (hd 0 m) (hp_bits b0)) in
       let pnlen := Z.land b0' 3 + 1 in
       let pnb := xor_prefix (sub payload 0 pnlen) (tl m) in
-      if negb (Z.land b0' (reserved_mask short) =? 0) then UReserved
-      else UOk (b0' :: sub pkt 1 (off - 1) ++ pnb ++ skipn (Z.to_nat pnlen) payload) pnlen
-               (match get_be (Z.to_nat pnlen) 0 pnb with Some (v, _) => v | None => 0 end).
+      UOk (b0' :: sub pkt 1 (off - 1) ++ pnb ++ skipn (Z.to_nat pnlen) payload) pnlen
+          (match get_be (Z.to_nat pnlen) 0 pnb with Some (v, _) => v | None => 0 end).
 
   (* be_packet, then CipherPacket::decrypt_long_packet (key [lk]) or decrypt_short_packet (key chosen by
      [sel] from the receiver's key state, the key-phase bit and the decoded pn — OneRttPacketKeys::get_remote).
@@ -143,9 +147,8 @@ Section Protect.
       | HRetry _ _ _ _ => (RxNotData 1, s)
       | _ =>
         let pkt := firstn (Z.to_nat total) dg in
-        match unprotect hk (is_short h) pkt off with
+        match unprotect hk pkt off with
         | UPanic => (RxPanic 1, s)
-        | UReserved => (RxConnErr, s)
         | UOk pkt' pnlen v =>
           if exp <? 0 then (RxInvalidPn, s)
           else match decode (mk_pnum pnlen v) exp with
@@ -158,7 +161,10 @@ Section Protect.
                  | Some k =>
                    let bo := Z.to_nat (off + pnlen) in
                    match dec k pn (firstn bo pkt') (skipn bo pkt') with
-                   | Some body => (RxAccept h total pn (is_short h && phase) body, s')
+                   | Some body =>
+                       (* check_reserved_bits_of_{long,short}_packet: only now, on an authenticated packet *)
+                       if negb (Z.land (hd 0 pkt') (reserved_mask (is_short h)) =? 0) then (RxConnErr, s')
+                       else (RxAccept h total pn (is_short h && phase) body, s')
                    | None => (RxDecrypt, s')
                    end
                  end
